@@ -389,14 +389,15 @@ int run_check(const CheckSpec &spec, const RunOptions &opt) {
 
     // ---- confirm, minimise, re-confirm (first failure of each distinct clause, in index order)
     std::vector<Finding> findings;
-    std::set<std::string> seen_clause;
+    std::set<std::string> seen_clause, info_seen;
     int infra_fail = 0; uint64_t shrink_runs = 0;
-    int handled = 0;
+    int handled = 0, looked = 0;
     std::map<std::string, int> seen_reported;
     for (auto &f : total.fails) {
-        if (handled >= 4) break;
+        if (handled >= 4 || looked >= 24) break;
+        looked++;
         // the worker already told us the clause (or that it died): look at no more than two runs per reported clause
-        if (++seen_reported[f.clause + "@" + batches[f.batch].engine] > 2) continue;
+        if (++seen_reported[f.clause + "@" + batches[f.batch].engine] > (f.clause == "crash" || f.clause == "hang" ? 2 : 10)) continue;
         const Engine *e = find_engine(batches[f.batch].engine);
         Plan p = e->generate(opt.seed, prop, f.index, opt.tier);         // pure function of the seed
         ChildRes c1 = run_in_child(p, prop, false);
@@ -408,9 +409,8 @@ int run_check(const CheckSpec &spec, const RunOptions &opt) {
             infra_fail++; handled++; continue;
         }
         if (seen_clause.count(clause)) continue;
-        seen_clause.insert(clause);
-        handled++;
         if (!clause_owned(clause, prop)) {
+            seen_clause.insert(clause); handled++;
             Finding fi; fi.plan = p; fi.clause = clause; fi.detail = c1.detail; fi.info = true; fi.info_reason = "belongs to " + clause.substr(0, clause.find('.'));
             findings.push_back(fi); continue;
         }
@@ -444,6 +444,17 @@ int run_check(const CheckSpec &spec, const RunOptions &opt) {
                 }
                 start.ops.resize(hi);
                 g_keep_owned = e->owned(start, clause);
+                if (!g_keep_owned) {
+                    // pure navigation up to the failing step: C06's business. Say so once, and keep looking at further runs that
+                    // report the same clause - one of them may reach it through one of this property's own operations
+                    if (!info_seen.count(clause)) {
+                        info_seen.insert(clause);
+                        Finding fi; fi.plan = start; fi.clause = clause; fi.detail = c1.detail; fi.info = true;
+                        fi.info_reason = "the history fails before any operation this property is about was executed (navigation defect: see C06)";
+                        findings.push_back(fi);
+                    }
+                    continue;
+                }
             }
             m = minimise(start, prop, c1.crashed ? c1.clause : clause, &used);
             g_keep_owned = false;
@@ -475,6 +486,7 @@ int run_check(const CheckSpec &spec, const RunOptions &opt) {
             if (!c3.stderr_text.empty()) { std::istringstream es(c3.stderr_text); std::string l; int k = 0; while (std::getline(es, l) && k++ < 16) text += "# stderr: " + l + "\n"; }
             write_file(fi.path, text);
         }
+        seen_clause.insert(clause); handled++;
         findings.push_back(fi);
     }
     // ---- evidence
